@@ -410,3 +410,11 @@ def show(t, depth=0):
     if isinstance(t, GenObj):
         return 'gen:%s' % t.func.qualname
     return object.__repr__(t)
+
+
+def strip_origins(t):
+    """A value taken out of a collection: which producer made it is no longer tied to the
+    path (all producers ran before), so the origins of its alternatives are dropped."""
+    if isinstance(t, Phi):
+        return join(*[(a, None) for a, o in t.alts])
+    return t
